@@ -524,7 +524,8 @@ def run_c07(tier, seed):
         for fr in HOSTILE_ENDS:
             add(handler, [(0, "f" + L.hx(RB("PING", []) + fr))], "PING then %r" % fr[:40], end=rng.choice(["e", "r"]))
         # legal requests with very many elements (beyond any pre-allocation cap of the parser), flat and nested
-        for nel in (1023, 1024, 1025, 1026, 1027, 1100, 2048, 2049, 3000):
+        import thresholds as T
+        for nel in T.extend([1023, 1024, 1025, 1026, 1027, 1100, 2048, 2049, 3000], 3, 20000, limit=6):
             for name in ("RPUSH", "DEL", "MSET"):
                 args = [b"e%d" % i for i in range(nel - 1)]
                 if name == "MSET" and len(args) % 2:
